@@ -91,7 +91,11 @@ def build_type_dict_from_type(t: Type, at_class: Optional[Type] = None) -> Dict[
     generic_type = get_origin(t)
     if generic_type is None:
         if at_class is not None:
-            raise TypeError(f"Could not find type {str(at_class)} in {str(t)}")
+            # A plain class can still fix the parameters of a generic base (class C(Base[int])).
+            inherited = get_inherited(t)
+            if inherited is Any:
+                raise TypeError(f"Could not find type {str(at_class)} in {str(t)}")
+            return build_type_dict_from_type(inherited, at_class)
         return {}
 
     if at_class is not None and generic_type is not at_class:
